@@ -7,6 +7,7 @@ import (
 	"net/http"
 	"net/http/httptest"
 	"regexp"
+	"strconv"
 	"strings"
 	"sync/atomic"
 	"time"
@@ -218,6 +219,7 @@ func c13EndToEnd(r *hx.Run, rnd *rand.Rand, n int) {
 		size      int
 		ct, kind  string
 		upEnc     string // the upstream itself answers gzip or br encoded
+		ttl       int
 		cacheable bool
 		rawOrig   []byte
 		fetch     int64
@@ -244,15 +246,17 @@ func c13EndToEnd(r *hx.Run, rnd *rand.Rand, n int) {
 		}
 		var keys []*keyInfo
 		fetchAccept := map[int64]string{} // fetch id -> Accept-Encoding of the request that fetched it
+		hitCE := map[string]string{}      // stored version + Accept-Encoding -> Content-Encoding of its hits
 		var size int
 		var ct, kind, upEnc string
 		var cacheable bool
+		ttl := 600 // the clock stands still, so any positive lifetime keeps the entry fresh
 		w.Pts = hx.InstallPoints(r.Seed)
 		var script func(f *hx.Fetch) *hx.Reply
 		script = func(f *hx.Fetch) *hx.Reply {
 			h := [][2]string{{"Content-Type", ct}}
 			if cacheable {
-				h = append(h, [2]string{"Cache-Control", "max-age=600"})
+				h = append(h, [2]string{"Cache-Control", "max-age=" + strconv.Itoa(ttl)})
 			} else {
 				h = append(h, [2]string{"Cache-Control", "no-cache"})
 			}
@@ -277,9 +281,10 @@ func c13EndToEnd(r *hx.Run, rnd *rand.Rand, n int) {
 			kind = []string{"text", "runs", "rand"}[rnd.Intn(3)]
 			cacheable = rnd.Intn(3) != 0
 			upEnc = []string{"", "", "", "gzip", "br"}[rnd.Intn(5)]
+			ttl = []int{600, 600, 1, 2, 3, 86400}[rnd.Intn(6)]
 			uri := fmt.Sprintf("/c13/%d/%d", si, i)
 			typeMatch := filter.MatchString(ct)
-			ki := &keyInfo{uri: uri, size: size, ct: ct, kind: kind, cacheable: cacheable, upEnc: upEnc}
+			ki := &keyInfo{uri: uri, size: size, ct: ct, kind: kind, cacheable: cacheable, upEnc: upEnc, ttl: ttl}
 			if upEnc != "" {
 				r.Add("e2e_keys_whose_upstream_answers_encoded", 1)
 			}
@@ -317,11 +322,15 @@ func c13EndToEnd(r *hx.Run, rnd *rand.Rand, n int) {
 					r.Violate("recompressed_per_request", map[string]string{"path": "coalesced_waiters"}, fmt.Sprintf("a burst of 5 on a cold compressible key ran the compressors gzip x%d, br x%d (expected once each, when stored)", gz1-gz0, br1-br0), briefs(results), map[string]interface{}{"raw_len": size, "content_type": ct, "held_fetches": held.Load()})
 				}
 			}
+			var forceAccept *string
 			probe := func(ki *keyInfo, step int, phase string) bool {
 				// the origin answers a (re)fetch of this key with the key's own parameters
-				size, ct, kind, cacheable, upEnc = ki.size, ki.ct, ki.kind, ki.cacheable, ki.upEnc
+				size, ct, kind, cacheable, upEnc, ttl = ki.size, ki.ct, ki.kind, ki.cacheable, ki.upEnc, ki.ttl
 				uri, typeMatch := ki.uri, filter.MatchString(ki.ct)
 				accept := c13Accepts[rnd.Intn(len(c13Accepts))]
+				if forceAccept != nil {
+					accept = *forceAccept
+				}
 				gz0, br0 := compress.VerifCounts()
 				hdr := http.Header{}
 				if accept != "" {
@@ -387,6 +396,16 @@ func c13EndToEnd(r *hx.Run, rnd *rand.Rand, n int) {
 						}
 					}
 				}
+				if res.Label == "hit" {
+					// the decision is a function of the request and the stored entry: the same Accept-Encoding
+					// on the same stored version is answered the same way every time
+					ck := fmt.Sprintf("%d|%s", res.FetchID, accept)
+					if prev, seen := hitCE[ck]; seen && prev != res.CE {
+						r.Violate("negotiation_depends_on_history", nil, fmt.Sprintf("hits on the same stored response with Accept-Encoding %q were answered %q earlier and %q now", accept, prev, res.CE), res.Brief(), cs)
+						return false
+					}
+					hitCE[ck] = res.CE
+				}
 				if !want[res.CE] {
 					params := map[string]string{"accept_class": "plain"}
 					if strings.Contains(accept, "pack200") {
@@ -433,6 +452,18 @@ func c13EndToEnd(r *hx.Run, rnd *rand.Rand, n int) {
 					break
 				}
 			}
+			if ki.upEnc != "" && cacheable {
+				// the same codings asked again after clients that were served other ones
+				for k, a := range []string{"br", "", "br", "gzip", "deflate", "gzip", "br"} {
+					a := a
+					forceAccept = &a
+					ok := probe(ki, 4+k, "repeated_codings")
+					forceAccept = nil
+					if !ok {
+						break
+					}
+				}
+			}
 			if sp.store && i%4 == 3 {
 				// revisit earlier keys: with 8 resident entries they come back from their persisted records
 				for n := 0; n < 6; n++ {
@@ -444,7 +475,7 @@ func c13EndToEnd(r *hx.Run, rnd *rand.Rand, n int) {
 						break
 					}
 				}
-				size, ct, kind, cacheable, upEnc = ki.size, ki.ct, ki.kind, ki.cacheable, ki.upEnc
+				size, ct, kind, cacheable, upEnc, ttl = ki.size, ki.ct, ki.kind, ki.cacheable, ki.upEnc, ki.ttl
 			}
 			r.Distinct(fmt.Sprintf("e2e %d %d %s %v", si, size, ct, cacheable))
 		}
@@ -453,7 +484,7 @@ func c13EndToEnd(r *hx.Run, rnd *rand.Rand, n int) {
 }
 
 func c13(r *hx.Run) {
-	r.Rule = "exhaustive table at the Fill level: accept (14 values incl. tokens containing 'gzip') x stored subset of raw/gzip/br (7) x raw size {min-1,min,min+1,min+4000} x min {1024,100} x filter {default,custom} x 6 content types x {direct, after Cacheable()}, N random bodies per cell, against the table of the statement/docs (where raw and visible lengths straddle the threshold both outcomes are accepted); then end-to-end through servers with default/configured thresholds and filters (two of them with an LRU of 8 entries over a store, earlier keys revisited after eviction so that they are served from their reloaded records; two that received their threshold and filter - set, changed or removed - through a reload of the running server; upstreams that answer gzip or br encoded themselves): text, repetitive and incompressible bodies, 4 requests per key with random Accept-Encoding, compressor call counters around every hit, stored variants compared with the best-compression profile's output. Non-trivial/distinct = table cell / e2e key class."
+	r.Rule = "exhaustive table at the Fill level: accept (14 values incl. tokens containing 'gzip') x stored subset of raw/gzip/br (7) x raw size {min-1,min,min+1,min+4000} x min {1024,100} x filter {default,custom} x 6 content types x {direct, after Cacheable()}, N random bodies per cell, against the table of the statement/docs (where raw and visible lengths straddle the threshold both outcomes are accepted); then end-to-end through servers with default/configured thresholds and filters (two of them with an LRU of 8 entries over a store, earlier keys revisited after eviction so that they are served from their reloaded records; two that received their threshold and filter - set, changed or removed - through a reload of the running server; upstreams that answer gzip or br encoded themselves; lifetimes from 1 s to a day; hits on one stored version with one Accept-Encoding must always get the same encoding): text, repetitive and incompressible bodies, 4 requests per key with random Accept-Encoding, compressor call counters around every hit, stored variants compared with the best-compression profile's output. Non-trivial/distinct = table cell / e2e key class."
 	r.Assume = []string{"Accept-Encoding is a plain list of codings (no q-values)", "gzip/brotli encoders are deterministic (same level => same bytes)"}
 	rnd := rand.New(rand.NewSource(r.Seed))
 	c13Table(r, rnd, r.Pick(1, 20))
